@@ -1,5 +1,5 @@
 PROP = dict(
-    coq=["Pause/PauseHarness.vo", "Pipe/StopHarness.vo", "Pipe/WarcStopProofs.vo"],
+    coq=["Pause/PauseHarness.vo", "Pause/PauseStartHarness.vo", "Pipe/StopHarness.vo", "Pipe/WarcStopProofs.vo"],
     legs=[
         dict(driver="pause", binary="zpause", quick=900, thorough=8000, shard=300,
              monitors=["calls_complete (no Pause/Resume call in progress once nothing moves)",
@@ -17,6 +17,16 @@ PROP = dict(
                        "pause_reaches_all / resume_wakes_all (a round of Pause calls leaves the manager paused, a round of Resume calls unpaused)",
                        "no_panic: no PauseCh is ever closed (Pause may still be about to send on it)",
                        "pause_sticks (a Pause invoked while every Resume in progress is already collecting, with no later Resume, leaves the manager paused and the live workers acknowledging)"]),
+        # "pause stops ALL workers of EVERY stage": the stages are started through their EXPORTED Start(inputChan, outputChan) / Stop() with
+        # config.WorkersCount = w (nothing in this binary's driver names an unexported identifier of a stage package, so a change of the
+        # workers' signatures leaves this leg running); one child process per case
+        dict(driver="pausestart", binary="zpausestart", quick=48, thorough=600, shard=48,
+             monitors=["calls_complete / no_panic (every Pause, Resume and Stop() call returns, quiescence is reached, no goroutine of the crawler panics)",
+                       "subscribers_are_live_workers (until Stop() the manager has one subscriber per worker - w per stage - and every stage its w worker goroutines; afterwards none)",
+                       "pause_stops_every_worker (between an observation with the manager paused and the next one, unless a Resume is issued, no stage takes an item and none comes out)",
+                       "pause_stops_every_worker / resume_wakes_all (until Stop(), all w workers of every stage are in the acknowledging send iff IsPaused, in the main select iff not)",
+                       "resume_wakes_all (until Stop(), whenever the manager is not paused every item offered so far was taken and came out of its stage)",
+                       "pause_reaches_all / resume_wakes_all (after Pause the manager is paused, after Resume it is not)"]),
         # "...worker exit and SHUTDOWN can leave a caller or a worker blocked forever", with the pause held by the real disk watcher or by
         # pause.Pause while stage workers are busy: the end-to-end stop driver of C03 (corpus only in the quick tier: its stop=paused and
         # stop=diskpaused inputs); monitors 0 and 3 belong to this property
